@@ -81,6 +81,22 @@ pub broadcast proof fn lemma_component_wf(i: Seq<u8>)
     lemma_field_bounds(i);
 }
 
+/// the key of a parsed field is a non-empty run of key bytes (ASCII letters, `_`, `-`): the class `key_value_field` takes
+pub proof fn lemma_component_field_key(i: Seq<u8>)
+    ensures spec_component(i) matches PR::Good(Comp::Field(k, v), n) ==> k.len() > 0 && all_bytes(k, |b: u8| is_key_byte(b))
+{
+    reveal(spec_component);
+    lemma_prim_bounds(i, 0);
+    lemma_run_end_props(i, 0, |b: u8| is_key_byte(b));
+    match run_end(i, 0, |b: u8| is_key_byte(b)) {
+        Some(ke) => {
+            let k = i.subrange(0, ke);
+            assert forall|j: int| 0 <= j < k.len() implies is_key_byte(#[trigger] k[j]) by { assert(k[j] == i[j]); }
+        }
+        None => {}
+    }
+}
+
 /// a successful greeting lies inside the input
 pub proof fn lemma_greeting_bounds(i: Seq<u8>)
     ensures spec_greeting(i) matches PR::Good(v, n) ==> 0 < n <= i.len()
